@@ -59,10 +59,12 @@ def window_edge(draw):
 @st.composite
 def programs(draw):
     tmin = draw(st.one_of(st.just(0.0), st.floats(0, 5e-3)))
-    width = draw(st.one_of(st.just(0.0), st.floats(1e-5, 5e-3), st.floats(1e-5, 5e-3)))
+    # (a zero-width pulse in about one case in seven, no chopper at all in one in twelve: both are
+    # legitimate but say little; measured with the plain one_of / integers they made up 49 % and 27 %)
+    width = draw(st.integers(0, 6).flatmap(lambda k: st.just(0.0) if k == 0 else st.floats(1e-5, 5e-3)))
     wmin = draw(st.floats(0.1, 5.0))
     wband = draw(st.floats(0.2, 10.0))
-    nch = draw(st.integers(0, 5))
+    nch = draw(st.sampled_from([0, 1, 1, 2, 2, 2, 3, 3, 3, 4, 4, 5]))
     dist_pool = st.one_of(st.floats(0.5, 50.0), st.floats(0.5, 50.0), st.just(0.0),
                           st.sampled_from([6.0, 10.0, 25.0]))
     choppers = []
